@@ -339,8 +339,260 @@ def c02_replay(case):
     return dict(evaluated=1, ok=0 if errs else 1, failures=[dict(case=case, detail='; '.join(errs[:3]))] if errs else [])
 
 
-RUN = {'C01': c01_run, 'C02': c02_run}
-REPLAY = {'C01': c01_replay, 'C02': c02_replay}
+
+# ---------------------------------------------------------------------------------------------
+# C03: LayoutSwapper
+# ---------------------------------------------------------------------------------------------
+
+def swapper_configs(R):
+    """(layout groups, nprocs spec builder) families accepted by the constructor."""
+    if R == 3:
+        return [
+            # the driver's remapperPhi: 2-D distributed, 1-D distributed (two ways)
+            ('phi', lambda p0, p1: ([{'v_parallel_2d': [0, 2, 1], 'mode_solve': [1, 2, 0]}, {'v_parallel_1d': [0, 2, 1], 'poloidal': [2, 1, 0]}],
+                                    [[p0, p1], p0])),
+            ('phi_b', lambda p0, p1: ([{'a2': [0, 2, 1], 'b2': [1, 2, 0]}, {'a1': [0, 2, 1]}], [[p0, p1], [p0]])),
+            ('rep', lambda p0, p1: ([{'a2': [0, 2, 1], 'b2': [1, 2, 0]}, {'a1': [0, 2, 1], 'c1': [2, 1, 0]}, {'s': [0, 1, 2]}],
+                                    [[p0, p1], [p0], 1]) if False else None),
+        ]
+    return [
+        ('f4', lambda p0, p1: ([{'flux_surface': [0, 3, 1, 2], 'v_parallel': [0, 2, 1, 3], 'poloidal': [3, 2, 1, 0]},
+                                {'flux_surface_1d': [0, 3, 1, 2], 'v_parallel_1d': [0, 2, 1, 3]}], [[p0, p1], [p0]])),
+    ]
+
+
+def c03_case(npts, p0, p1, groups, nprocs, start, seqs, dtype='float'):
+    from mpi4py import MPI
+    from pygyro.model.layout import LayoutSwapper
+    P = p0 * p1
+    et = eta(npts)
+    G = global_field(npts, dtype)
+
+    def job(rank):
+        errs = []
+        sw = LayoutSwapper(MPI.COMM_WORLD, groups, nprocs, et, start)
+        nok = 0
+        for (seq, with_buf) in seqs:
+            bufs = [np.full(sw.bufferSize, -7.0, dtype=G.dtype) for _ in range(3)]
+            cur = seq[0]
+            L = sw.getLayout(cur)
+            bufs[0][:L.size] = local_block(G, L).ravel()
+            a, b = 0, 1
+            first_block = bufs[0][:L.size].copy()
+            for nxt in seq[1:]:
+                before = bufs[a][:sw.getLayout(cur).size].copy()
+                sw.transpose(bufs[a], bufs[b], cur, nxt, bufs[2] if with_buf else None)
+                Ln = sw.getLayout(nxt)
+                got = bufs[b][:Ln.size].reshape(Ln.shape)
+                want = local_block(G, Ln)
+                if not np.array_equal(got, want):
+                    errs.append(dict(seq=seq, buf=with_buf, step=(cur, nxt),
+                                     detail='after %s -> %s the block differs from the global field in %d of %d entries'
+                                     % (cur, nxt, int((got != want).sum()), want.size)))
+                    break
+                if with_buf and not np.array_equal(bufs[a][:len(before)], before):
+                    errs.append(dict(seq=seq, buf=with_buf, step=(cur, nxt), detail='source block modified although a buffer was given'))
+                    break
+                nok += 1
+                a, b = b, a
+                cur = nxt
+        return errs, nok
+
+    try:
+        res, traces = MPI.run_job(P, job)
+    except Exception as e:
+        return [dict(detail='job failed: %r' % (e,))], 0
+    errs, nok = [], 0
+    for r, (e, k) in enumerate(res):
+        for x in e:
+            x['rank'] = r
+            errs.append(x)
+        nok += k
+    return errs, nok
+
+
+def c03_run(tier, seed):
+    rng = np.random.default_rng(seed)
+    out = dict(evaluated=0, ok=0, failures=[], samples=[])
+    grids = [(1, 1), (2, 1), (1, 2), (2, 2), (2, 3), (3, 2), (1, 3), (3, 1)]
+    ncfg = 10 if tier == 'quick' else 80
+    for it in range(ncfg):
+        R = 3 if rng.integers(0, 3) else 4
+        fam = [f for f in swapper_configs(R) if f[1](2, 2) is not None]
+        name, build = fam[int(rng.integers(0, len(fam)))]
+        p0, p1 = grids[int(rng.integers(0, len(grids)))] if it >= len(grids) else grids[it]
+        groups, nprocs = build(p0, p1)
+        style = ['plain', 'tight', 'uneven'][int(rng.integers(0, 3))]
+        npts = gen_shape(rng, R, (p0, p1), style)
+        names = [n for g in groups for n in g]
+        seqs = []
+        for a in names:
+            for b in names:
+                if a != b:
+                    seqs.append(([a, b, a], bool(rng.integers(0, 2))))
+        for _ in range(4):
+            seqs.append(([names[i] for i in rng.integers(0, len(names), 5)], bool(rng.integers(0, 2))))
+        seqs = [(s_, bf) for (s_, bf) in seqs if all(x != y for x, y in zip(s_, s_[1:]))]
+        case = dict(npts=npts, p0=p0, p1=p1, family=name, R=R)
+        try:
+            errs, nok = c03_case(npts, p0, p1, groups, nprocs, names[0], seqs)
+        except Exception as e:
+            errs, nok = [dict(detail='job failed: %r' % (e,))], 0
+        out['evaluated'] += nok + len(errs)
+        out['ok'] += nok
+        if len(out['samples']) < 4:
+            out['samples'].append(dict(case, sequences=len(seqs)))
+        for e in errs[:2]:
+            if len(out['failures']) < 4:
+                out['failures'].append(dict(case=dict(case, seqs=[[s_, bf] for (s_, bf) in seqs]), **e))
+    return out
+
+
+def c03_replay(case):
+    fam = dict((f[0], f[1]) for f in swapper_configs(case['R']))
+    groups, nprocs = fam[case['family']](case['p0'], case['p1'])
+    names = [n for g in groups for n in g]
+    seqs = [(s_, bf) for s_, bf in case['seqs']]
+    errs, nok = c03_case(case['npts'], case['p0'], case['p1'], groups, nprocs, names[0], seqs)
+    return dict(evaluated=nok + len(errs), ok=nok, failures=[dict(case=case, **e) for e in errs[:3]])
+
+
+# ---------------------------------------------------------------------------------------------
+# C04: Grid operation sequences against one undistributed array
+# ---------------------------------------------------------------------------------------------
+
+OPS = ['save', 'restore', 'free', 'write', 'L0', 'L1', 'L2']
+
+
+def c04_case(npts, nprocs, orders, seq, save_mem, dtype):
+    from mpi4py import MPI
+    from pygyro.model.layout import getLayoutHandler
+    from pygyro.model.grid import Grid
+    P = int(np.prod(nprocs))
+    layouts = {'L%d' % k: list(o) for k, o in enumerate(orders)}
+    et = eta(npts)
+    R = len(npts)
+
+    def job(rank):
+        h = getLayoutHandler(MPI.COMM_WORLD, layouts, list(nprocs), et)
+        g = Grid(et, [None] * R, h, 'L0', allocateSaveMemory=save_mem, dtype=complex if dtype == 'complex' else float)
+        G = global_field(npts, dtype).astype(g.getAllData().dtype)
+        g.getAllData()[:] = local_block(G, h.getLayout('L0'))
+        model = dict(G=G.copy(), name='L0', saved=None)
+        wcount = 0
+        for k, op in enumerate(seq):
+            refused = False
+            try:
+                if op == 'save':
+                    g.saveGridValues()
+                elif op == 'restore':
+                    g.restoreGridValues()
+                elif op == 'free':
+                    g.freeGridSave()
+                elif op == 'write':
+                    wcount += 1
+                    newG = model['G'] * 2 + wcount
+                    g.getAllData()[:] = local_block(newG, h.getLayout(g.currentLayout))
+                else:
+                    g.setLayout(op)
+            except AssertionError:
+                refused = True
+            # model
+            must_refuse = False
+            if op == 'save':
+                must_refuse = (not save_mem) or model['saved'] is not None
+                if not must_refuse:
+                    model['saved'] = (model['G'].copy(), model['name'])
+            elif op == 'restore':
+                must_refuse = (not save_mem) or model['saved'] is None
+                if not must_refuse:
+                    model['G'], model['name'] = model['saved']
+                    model['saved'] = None
+            elif op == 'free':
+                must_refuse = (not save_mem) or model['saved'] is None
+                if not must_refuse:
+                    model['saved'] = None
+            elif op == 'write':
+                model['G'] = model['G'] * 2 + wcount
+            else:
+                model['name'] = op
+            if refused != must_refuse:
+                return 'step %d (%s): %s' % (k, op, 'refused although allowed' if refused else 'accepted although it must be refused')
+            if g.currentLayout != model['name']:
+                return 'step %d (%s): layout is %s, model says %s' % (k, op, g.currentLayout, model['name'])
+            L = h.getLayout(model['name'])
+            want = local_block(model['G'], L)
+            got = g.getAllData()
+            if got.shape != want.shape or not np.array_equal(got, want):
+                return 'step %d (%s): visible data differs from the global-array model' % (k, op)
+        return None
+
+    try:
+        res, _ = MPI.run_job(P, job)
+    except Exception as e:
+        return 'job failed: %r' % (e,)
+    for r, e in enumerate(res):
+        if e:
+            return 'rank %d: %s' % (r, e)
+    return None
+
+
+def c04_run(tier, seed):
+    rng = np.random.default_rng(seed)
+    out = dict(evaluated=0, ok=0, failures=[], samples=[])
+    setups = [([3, 4, 5], (1,), [(0, 1, 2), (1, 0, 2), (2, 1, 0)]),
+              ([4, 5, 3], (2,), [(0, 1, 2), (1, 0, 2), (2, 1, 0)]),
+              ([4, 3, 5, 4], (2, 2), STANDARD4)]
+    maxlen = 5 if tier == 'quick' else 6
+    # exhaustive short sequences on the single-process setup (both with and without save memory)
+    npts, grid, orders = setups[0]
+    for save_mem in (True, False):
+        ops = OPS if save_mem else ['save', 'restore', 'write', 'L1', 'L2']
+        for n in range(1, (maxlen if save_mem else 3) + 1):
+            for seq in itertools.product(ops, repeat=n):
+                e = c04_case_fast(npts, grid, orders, list(seq), save_mem, 'float')
+                out['evaluated'] += 1
+                if e:
+                    if len(out['failures']) < 3:
+                        out['failures'].append(dict(case=dict(npts=npts, nprocs=list(grid), orderings=[list(o) for o in orders], seq=list(seq),
+                                                              save_mem=save_mem, dtype='float'), detail=e))
+                else:
+                    out['ok'] += 1
+    out['samples'].append(dict(kind='exhaustive', max_len=maxlen, ops=OPS, setup=dict(npts=npts, nprocs=list(grid))))
+    # random longer sequences on distributed setups
+    for _ in range(12 if tier == 'quick' else 150):
+        npts, grid, orders = setups[int(rng.integers(1, len(setups)))]
+        seq = [OPS[i] for i in rng.integers(0, len(OPS), int(rng.integers(6, 25)))]
+        save_mem = bool(rng.integers(0, 4))
+        dt = 'complex' if rng.integers(0, 3) == 0 else 'float'
+        e = c04_case(npts, grid, orders, seq, save_mem, dt)
+        out['evaluated'] += 1
+        if e:
+            if len(out['failures']) < 4:
+                out['failures'].append(dict(case=dict(npts=npts, nprocs=list(grid), orderings=[list(o) for o in orders], seq=seq,
+                                                      save_mem=save_mem, dtype=dt), detail=e))
+        else:
+            out['ok'] += 1
+        if len(out['samples']) < 4:
+            out['samples'].append(dict(kind='random', npts=npts, nprocs=list(grid), seq=seq, save_mem=save_mem, dtype=dt))
+    return out
+
+
+_fast = {}
+
+
+def c04_case_fast(npts, nprocs, orders, seq, save_mem, dtype):
+    """Single-process variant without thread start-up (the job function runs in the calling thread)."""
+    return c04_case(npts, nprocs, orders, seq, save_mem, dtype)
+
+
+def c04_replay(case):
+    e = c04_case(case['npts'], tuple(case['nprocs']), [tuple(o) for o in case['orderings']], case['seq'], case['save_mem'], case['dtype'])
+    return dict(evaluated=1, ok=0 if e else 1, failures=[dict(case=case, detail=e)] if e else [])
+
+
+RUN = {'C01': c01_run, 'C02': c02_run, 'C03': c03_run, 'C04': c04_run}
+REPLAY = {'C01': c01_replay, 'C02': c02_replay, 'C03': c03_replay, 'C04': c04_replay}
 
 
 def main():
